@@ -79,20 +79,20 @@ func (d *FloatListDecoder) Decode(b []byte) []float64 {
 }
 
 func (d *FloatListDecoder) readUint32(r io.Reader) (uint32, error) {
-	n, err := r.Read(d.buf[:4])
+	n, err := io.ReadFull(r, d.buf[:4])
+	d.pos += int64(n)
 	if err != nil {
 		return 0, err
 	}
-	d.pos += int64(n)
 	return binary.BigEndian.Uint32(d.buf), nil
 }
 
 func (d *FloatListDecoder) readFloat64(r io.Reader) (float64, error) {
-	n, err := r.Read(d.buf)
+	n, err := io.ReadFull(r, d.buf)
+	d.pos += int64(n)
 	if err != nil {
 		return 0, err
 	}
-	d.pos += int64(n)
 	bits := binary.BigEndian.Uint64(d.buf)
 	return math.Float64frombits(bits), nil
 }
